@@ -29,11 +29,17 @@
 (*   License, a Files paragraph without Copyright or License).             *)
 (*                                                                         *)
 (* kind = "doc": one build -> dump -> strict re-parse -> dump execution    *)
-(*   [start, hdr, ops, order, dump, load, warn, same, edits, load2, same2, *)
-(*    load3]                                                               *)
+(*   [start, hdr, ops, calls, order, dump, load, warn, same, edits, load2, *)
+(*    same2, load3]                                                        *)
 (*   start  "api": ops are the add_*_paragraph calls in call order;        *)
 (*          "parsed": the document was obtained by parsing a text whose    *)
 (*          paragraphs are ops in that order (any interleaving)            *)
+(*   calls  the other calls made while the document was built, in order:    *)
+(*          CopyrightDoc!EditRec records (i = index into ops, 0 = header)   *)
+(*          with raised = the call raised an exception, exc = its class.    *)
+(*          The document the code holds is ApplyCalls(hdr + ops, calls): a  *)
+(*          call the specification says is REJECTED (Rejects) must have     *)
+(*          raised and changes nothing; every other call must not raise     *)
 (*   order  the paragraphs of the built object, as indexes into ops        *)
 (*   dump   its dump() as abstract physical lines [f, x] (f = field name   *)
 (*          of a field start, "" otherwise)                                *)
@@ -48,8 +54,9 @@
 (*   4 RoundTrip: load = [err |-> "none", hdr, paragraphs in the observed  *)
 (*     order], no warning                                                  *)
 (*   5 Stable: same                                                        *)
-(*   6 the re-parsed document was then changed by `edits` (setters of a    *)
-(*     paragraph, add_*_paragraph; CopyrightDoc!ApplyEdits), dumped and    *)
+(*   6 the re-parsed document was then changed by `edits` (calls as above,  *)
+(*     accepted and rejected ones, add_*_paragraph; i = position in the     *)
+(*     document; CopyrightDoc!ApplyCalls), dumped and                       *)
 (*     strictly re-parsed: load2 = [err |-> "none", hdr, edited document], *)
 (*     same2 = the dump of that re-parse equals the dump it was read from  *)
 (*     (nothing of the first round trip may leak: CopyrightDoc's memo)     *)
@@ -71,7 +78,7 @@ Tr == Traces[tid]
 
 TInit == /\ tid \in 1..Len(Traces)
          /\ l = 1
-         /\ lst = <<>> /\ paras = <<>> /\ hist = <<>> /\ big = FALSE /\ hk = "trace" /\ ed = <<>>
+         /\ lst = <<>> /\ paras = <<>> /\ hist = <<>> /\ big = FALSE /\ hk = "trace" /\ ed = <<>> /\ rej = <<>>
 
 Advance == /\ l' = l + 1
            /\ UNCHANGED <<vars, tid>>
@@ -93,18 +100,32 @@ CDec == /\ Tr.kind = "codec" /\ l = 2
         /\ PrintT(<<"ACCEPTED", tid>>)
 
 \* ---- document traces
-Ops     == Tr.ops
+\* the calls of the build phase apply to the paragraphs in call order (before `order` places them)
+Doc1    == ApplyCalls(DocOf(Tr.hdr, Tr.ops), Tr.calls)
+Ops     == Doc1.paras
+Hdr1    == Doc1.hdr
 Built   == [i \in 1..Len(Tr.order) |-> Ops[Tr.order[i]]]          \* the document the code holds
+Doc2    == ApplyCalls(DocOf(Hdr1, Built), Tr.edits)               \* ... after the edits of the re-parsed document
 ApiOrder == LET ps == Build([i \in 1..Len(Ops) |-> [Ops[i] EXCEPT !.lic = Lic(EmptyLn, <<i>>)]])
             IN [i \in 1..Len(ps) |-> ps[i].lic.text[1]]           \* (paragraphs tagged with their index)
+\* every call raised exactly when the specification says it is rejected (judged in the state it was made in)
+CallsFold(D, cs) == FoldLeft(LAMBDA acc, c : [d   |-> ApplyCall(acc.d, c),
+                                             ok  |-> acc.ok /\ (c.raised = Rejects(acc.d, c)),
+                                             cls |-> acc.cls /\ (Rejects(acc.d, c) => c.exc = RejectExc(acc.d, c)),
+                                             \* a refused call that was carried out: the document then holds a
+                                             \* value outside the domain (the harness takes the trace as unspecified)
+                                             un  |-> acc.un \/ (Rejects(acc.d, c) /\ ~c.raised)],
+                             [d |-> D, ok |-> TRUE, cls |-> TRUE, un |-> FALSE], cs)
 
 \* (a header read from the deprecated field name Format-Specification has its Format field re-added last)
-ExpectedDump == LET hf == HeaderFields(Tr.hdr)
+ExpectedDump == LET hf == HeaderFields(Hdr1)
                 IN DumpFields(IF Tr.fmtlast THEN Tail(hf) \o <<hf[1]>> ELSE hf)
                    \o Flat([i \in 1..Len(Built) |-> <<SepLn>> \o DumpFields(ParaFields(Built[i]))])
 
 DBuild == /\ Tr.kind = "doc" /\ l = 1
           /\ Note(Tr.order = (IF Tr.start = "api" THEN ApiOrder ELSE [i \in 1..Len(Ops) |-> i]), "order")
+          /\ Note(CallsFold(DocOf(Tr.hdr, Tr.ops), Tr.calls).cls /\ CallsFold(DocOf(Hdr1, Built), Tr.edits).cls, "exception class")
+          /\ Note(~CallsFold(DocOf(Tr.hdr, Tr.ops), Tr.calls).un /\ ~CallsFold(DocOf(Hdr1, Built), Tr.edits).un, "refused call carried out")
           /\ Advance
 DDump  == /\ Tr.kind = "doc" /\ l = 2
           /\ Note([i \in 1..Len(Tr.dump) |->
@@ -118,17 +139,19 @@ DLoad  == /\ Tr.kind = "doc" /\ l = 3
           /\ Advance
 DRound == /\ Tr.kind = "doc" /\ l = 4
           /\ Tr.warn = 0
-          /\ RoundTripOf(Tr.hdr, Built, Tr.load)
+          /\ CallsFold(DocOf(Tr.hdr, Tr.ops), Tr.calls).ok
+          /\ RoundTripOf(Hdr1, Built, Tr.load)
           /\ Advance
 DSame  == /\ Tr.kind = "doc" /\ l = 5
           /\ Tr.same
           /\ Advance
 DEdit  == /\ Tr.kind = "doc" /\ l = 6
-          /\ RoundTripOf(Tr.hdr, ApplyEdits(Built, Tr.edits), Tr.load2)
+          /\ CallsFold(DocOf(Hdr1, Built), Tr.edits).ok
+          /\ RoundTripOf(Doc2.hdr, Doc2.paras, Tr.load2)
           /\ Tr.same2
           /\ Advance
 DAgain == /\ Tr.kind = "doc" /\ l = 7
-          /\ RoundTripOf(Tr.hdr, Built, Tr.load3)
+          /\ RoundTripOf(Hdr1, Built, Tr.load3)
           /\ Advance
           /\ PrintT(<<"ACCEPTED", tid>>)
 
